@@ -391,6 +391,11 @@ func verifC14MemSequences() {
 	fb, _ := fs.Create("d0", "b")
 	x1 := verifNondetBytes("x1", 2)
 	x2 := verifNondetBytes("x2", 1)
+	deep := verifTier() > 0 // thorough: a third append and a third read
+	var x3 []byte
+	if deep {
+		x3 = verifNondetBytes("x3", 2)
+	}
 	r := fs.Open("d0", "b")
 	var linked bool
 	var wg sync.WaitGroup
@@ -399,6 +404,9 @@ func verifC14MemSequences() {
 	go func() {
 		fs.Append(fb, x1)
 		fs.Append(fb, x2)
+		if deep {
+			fs.Append(fb, x3)
+		}
 		fs.Delete("d0", "a")
 		wg.Done()
 	}()
@@ -409,15 +417,20 @@ func verifC14MemSequences() {
 	g1 := fs.ReadAt(r, 0, 8)
 	l := fs.List("d0")
 	g2 := fs.ReadAt(r, 0, 8)
+	g3 := g2
+	if deep {
+		g3 = fs.ReadAt(r, 0, 8)
+	}
 	wg.Wait()
 	verifRaceDetect(false)
 	verifAssert("seq/no-data-race", verifRaces() == 0)
-	all := append(verifClone(x1), x2...)
+	x12 := append(verifClone(x1), x2...)
+	all := append(verifClone(x12), x3...)
 	isPrefix := func(g []byte) bool {
-		return verifOr(len(g) == 0, verifOr(verifBytesEq(g, x1), verifBytesEq(g, all)))
+		return verifOr(len(g) == 0, verifOr(verifBytesEq(g, x1), verifOr(verifBytesEq(g, x12), verifBytesEq(g, all))))
 	}
-	verifAssert("seq/reads-are-whole-append-prefixes", verifAnd(isPrefix(g1), isPrefix(g2)))
-	verifAssert("seq/second-read-not-shorter", len(g2) >= len(g1))
+	verifAssert("seq/reads-are-whole-append-prefixes", verifAnd(isPrefix(g1), verifAnd(isPrefix(g2), isPrefix(g3))))
+	verifAssert("seq/second-read-not-shorter", len(g2) >= len(g1) && len(g3) >= len(g2))
 	verifAssert("seq/list-always-shows-b", verifHas(l, "b"))
 	// Delete(a) is program-ordered after both appends: a listing without a is followed by full reads
 	verifAssert("seq/delete-observed-implies-appends-observed", verifOr(verifHas(l, "a"), verifBytesEq(g2, all)))
